@@ -133,7 +133,6 @@ def run(rep: vk.Report):
             else:
                 V = common.orders(vs, [Variable("extra0")] if r.random() < 0.4 else [], r)
         S = ser.Ser()
-        C._compile_cached.cache_clear()
         try:
             te = S.expr(e)
             H = AD.compute_hessian(e, V)
